@@ -77,3 +77,43 @@ def unit_step_clock(twin=False):
     pb = src("src/phreeqcpp/PBasic.cpp").decode("latin1")
     r.add("TOTAL_TIME.reads_initial_total_time+rate_sim_time", DISCHARGED if "PhreeqcPtr->initial_total_time + PhreeqcPtr->rate_sim_time" in pb else FAILED, "syntactic", 0, "", kind="structural")
     return r
+
+
+def unit_reactant_nonnegative(twin=False):
+    """Reactant amounts never become negative (Runge-Kutta path): every stage sets m = m_temp[j] - moles with m_temp[j] the amount at
+    the start of the sub-step, and calc_final_kinetic_reaction caps the reacted moles of component i at that same m_temp[i] (then
+    m = 0) before adding them to the system — so m_temp - moles >= 0 and nothing is added that the reactant did not have."""
+    import re
+    q = "Phreeqc::calc_final_kinetic_reaction"
+    fn = A.find_function(KIN, q)
+    r = U.new_unit("C12.kinetics.reacted_moles_capped_at_amount_present", KIN, q, fn)
+    cap = find_nodes(fn, KIN, lambda t, x: text_of(KIN, x["inner"][0]).startswith("kinetics_comp_ptr->Get_moles()>"), kinds=("IfStmt",))
+    if len(cap) != 1:
+        raise Undecided("cap statement of calc_final_kinetic_reaction not found (%d)" % len(cap))
+    c = ctx(functional=("Get_moles",))
+    f, ex, fin, info = region(KIN, q, [cap[0]], c)
+    base = None
+    n = 0
+    for s in live(fin):
+        sets = [e for e in s.events if e.name.endswith("Set_moles")]
+        gm = [e.result for e in s.events if e.name.endswith("Get_moles")]
+        if not sets:
+            continue
+        n += 1
+        B_ = sets[0].args[0]
+        base = B_
+        U.discharge_valid(r, "cap.applies_when_moles_exceed_the_bound_it_sets", list(s.pc), tm.lt(B_, gm[0]) if gm else tm.FALSE)
+        sm = [e for e in s.events if e.name.endswith("Set_m")]
+        r.add("cap.reactant_left_with_zero", DISCHARGED if len(sm) == 1 and tm.isnum(sm[0].args[0]) and sm[0].args[0].args[0] == 0 else FAILED, "trace", 0, repr([e.args for e in sm])[:80], kind="trace")
+        mt = tm.select(entry_arr(ex, s, ("m", "R")), tm.select(entry_arr(ex, s, ("f", "#vdata", "P")), tm.app("fld:m_temp", (THIS,), "P")), local(info, s, "i"))
+        okb = B_ is mt and not twin
+        r.add("cap.bound_is_amount_at_start_of_the_substep(m_temp[i])", DISCHARGED if okb else FAILED, "symex", 0, repr(B_)[:160])
+    r.add("reach.cap", DISCHARGED if n == 1 else UNDECIDED, "symex", 0, "%d" % n, kind="vacuity")
+    # every stage of rk_kinetics: m = m_temp[j] - moles
+    fr = A.find_function(KIN, "Phreeqc::rk_kinetics")
+    t = text_of(KIN, fr)
+    sites = re.findall(r"kinetics_comp_ptr->Set_m\(([^;]*?)-kinetics_comp_ptr->Get_moles\(\)\);", t)
+    r.add("stages.m==m_temp[j]-moles_at_every_stage", DISCHARGED if len(sites) >= 8 and all(x == "m_temp[j]" for x in sites) else FAILED, "syntactic", 0, "%d sites: %r" % (len(sites), sorted(set(sites))), kind="structural")
+    r.add("stages.m_temp_taken_from_current_amount_at_step_start", DISCHARGED if "m_temp[j]=kinetics_comp_ptr->Get_m();" in t else FAILED, "syntactic", 0, "", kind="structural")
+    r.assumptions += ["CVODE path (cvode_update_reactants) is not under this contract", "two text anchors in rk_kinetics"]
+    return r
